@@ -326,6 +326,7 @@ func runC08(c *Ctx) {
 		}
 		// the close state machine may live in an unexported helper that the Close case (and nothing else) calls with the frame
 		var frameVal ssa.Value = fn.Params[1]
+		var payloadParam ssa.Value // set when the helper receives f.Payload() instead of the frame
 		closeImplied := false
 		if len(callsToFn(fn, w.prepareClose)) == 0 {
 			for _, in := range allCalls(fn) {
@@ -342,6 +343,11 @@ func runC08(c *Ctx) {
 				for i, a := range in.Call.Args {
 					if guarded && strip(a) == ssa.Value(fn.Params[1]) && i < len(h.Params) {
 						fn, frameVal, closeImplied = h, h.Params[i], true
+					}
+					// ... or with the frame's payload
+					if pc, ok := strip(a).(*ssa.Call); guarded && ok && isCallToFn(pc, w.payloadM) && strip(pc.Call.Args[0]) == ssa.Value(fn.Params[1]) && i < len(h.Params) {
+						fn, frameVal, closeImplied = h, nil, true
+						payloadParam = h.Params[i]
 					}
 				}
 				if closeImplied {
@@ -405,7 +411,7 @@ func runC08(c *Ctx) {
 		frameParams := map[ssa.Value]bool{}
 		replyKind := func(v ssa.Value, echo map[ssa.Value]bool) string {
 			v = strip(v)
-			if echo[v] {
+			if echo[v] || (payloadParam != nil && v == payloadParam) {
 				return "echo"
 			}
 			if call, ok := v.(*ssa.Call); ok {
